@@ -2,7 +2,7 @@
 # tools/neutral.sh <area> <checks...>: run checks against every behaviour-preserving refactoring of an area
 # (expected: no violation, no inconclusive result).
 area=$1; shift
-for r in /tmp/mut/neutral/$area/out/r*.diff; do
+for r in /tmp/mut/neutral/$area/${NOUT:-out}/r*.diff; do
   [ -f "$r" ] || continue
   scratch=$(mktemp -d /dev/shm/verif-neutral-XXXXXX)
   mkdir -p "$scratch/repo" && git -C /repo archive HEAD | tar -x -C "$scratch/repo"
